@@ -234,7 +234,9 @@ def install(E):
         if m == 'havoc': return SF(None, bits, taint=x.taint)
         if m == 'exact':
             return SF(z3.fpRealToFP(RNE, z3.ToReal(zt(x)), sort_of(bits)), bits, x.lo, x.hi, taint=x.taint)
-        return rounded(s, st, z3.ToReal(zt(x)), Fraction(x.lo), Fraction(x.hi), bits, x.taint, True)
+        r = rounded(s, st, z3.ToReal(zt(x)), Fraction(x.lo), Fraction(x.hi), bits, x.taint, True)
+        if r.exact and r.ik is None: r = SF(r.t, r.bits, r.lo, r.hi, exact=True, taint=r.taint, ik=zt(x))
+        return r
     E.fp_from_int = fp_from_int
     def fp_to_int(s, st, x, bits, w, signed):
         lo, hi = rng(w) if signed else (0, (1 << w) - 1)
@@ -262,6 +264,9 @@ def install(E):
         if tlo < lo or thi > hi:
             s.check_vc(st, z3.Or(x.t <= rv(lo - 1), x.t >= rv(hi + 1)), 'ub', 'float to integer conversion out of range')
             tlo = max(tlo, lo); thi = min(thi, hi)
+        if x.ik is not None:
+            v = SV(x.ik, max(tlo, lo), min(thi, hi), taint=x.taint)
+            return v if signed else s.fromunsigned(v, w)
         if x.exact:
             t = z3.ToInt(x.t)
         else:
@@ -298,17 +303,19 @@ def install(E):
             rm = {'round': z3.RNA(), 'floor': z3.RTN(), 'ceil': z3.RTP()}[how]
             return SF(z3.fpRoundToIntegral(rm, x.t), bits, taint=x.taint)
         if x.exact: return x
+        # integer k with a linear characterisation (ties may go either way: sound over-approximation)
+        s.fresh += 1
+        k = z3.Int('rint!%d' % s.fresh); kr = z3.ToReal(k)
+        half = rv(Fraction(1, 2))
         if how == 'round':
-            t = z3.If(x.t >= 0, z3.ToReal(z3.ToInt(x.t + rv(Fraction(1, 2)))), -z3.ToReal(z3.ToInt(-x.t + rv(Fraction(1, 2)))))
+            s.add_pc(st, z3.And(kr - x.t <= half, x.t - kr <= half))
             lo = Fraction(math.floor(x.lo + Fraction(1, 2))) if x.lo >= 0 else -Fraction(math.floor(-x.lo + Fraction(1, 2)))
             hi = Fraction(math.floor(x.hi + Fraction(1, 2))) if x.hi >= 0 else -Fraction(math.floor(-x.hi + Fraction(1, 2)))
         elif how == 'floor':
-            t = z3.ToReal(z3.ToInt(x.t)); lo = Fraction(math.floor(x.lo)); hi = Fraction(math.floor(x.hi))
+            s.add_pc(st, z3.And(kr <= x.t, x.t < kr + 1)); lo = Fraction(math.floor(x.lo)); hi = Fraction(math.floor(x.hi))
         else:
-            t = -z3.ToReal(z3.ToInt(-x.t)); lo = Fraction(math.ceil(x.lo)); hi = Fraction(math.ceil(x.hi))
-        s.fresh += 1
-        r = z3.Real('rint!%d' % s.fresh)
-        s.add_pc(st, r == t)
-        return SF(r, bits, lo, hi, exact=True, taint=x.taint)
+            s.add_pc(st, z3.And(kr - 1 < x.t, x.t <= kr)); lo = Fraction(math.ceil(x.lo)); hi = Fraction(math.ceil(x.hi))
+        s.add_pc(st, z3.And(k >= int(lo), k <= int(hi)))
+        return SF(kr, bits, lo, hi, exact=True, taint=x.taint, ik=k)
     E.fp_round_int = fp_round_int
     E.fp_lift = lift
